@@ -24,6 +24,8 @@ type Proxy struct {
 	pauseAt int
 	pauseOn string
 	paused  atomic.Bool
+	holdOn  string
+	holding atomic.Bool
 	// Down counts leader->follower bytes in total
 	Down atomic.Int64
 	Cuts atomic.Int64
@@ -98,6 +100,21 @@ func (p *Proxy) PauseOnRequest(sub string) {
 	p.mu.Unlock()
 }
 
+// HoldRequest holds back, unforwarded, the first follower->leader segment that
+// contains the given bytes (and everything behind it on that connection) until
+// ReleaseRequest: the leader does not see the request meanwhile.
+func (p *Proxy) HoldRequest(sub string) {
+	p.mu.Lock()
+	p.holdOn = sub
+	p.mu.Unlock()
+}
+
+// RequestHeld reports whether a segment is being held back.
+func (p *Proxy) RequestHeld() bool { return p.holding.Load() }
+
+// ReleaseRequest forwards the held segment.
+func (p *Proxy) ReleaseRequest() { p.holding.Store(false) }
+
 // Pause stops forwarding leader->follower data until Resume.
 func (p *Proxy) Pause()  { p.paused.Store(true) }
 func (p *Proxy) Resume() { p.paused.Store(false) }
@@ -154,7 +171,16 @@ func (p *Proxy) pipeUp(c, up net.Conn) {
 				p.paused.Store(true)
 				p.pauseOn = ""
 			}
+			held := false
+			if p.holdOn != "" && bytes.Contains(buf[:n], []byte(p.holdOn)) {
+				p.holding.Store(true)
+				p.holdOn = ""
+				held = true
+			}
 			p.mu.Unlock()
+			for held && p.holding.Load() {
+				time.Sleep(time.Millisecond)
+			}
 			if _, werr := up.Write(buf[:n]); werr != nil {
 				break
 			}
